@@ -106,6 +106,10 @@ type program struct {
 	modLen  int
 }
 
+// wrapMode: where the call statements of the chain are placed (0 plain; 1 in a finally block; 2 in a catch block;
+// 3 in a try body followed by finally). Set by the family "wrapped-calls".
+var wrapMode int
+
 // build constructs one program. forms[i] is the call form used by the caller of f_i (forms[0] = main's call of f0).
 func build(d int, fail int, forms []int, layout, position, style int, moduleBodyFails bool) program {
 	f := failures[fail]
@@ -131,7 +135,30 @@ func build(d int, fail int, forms []int, layout, position, style int, moduleBody
 			ln := b.add(indent + f.stmt)
 			expect = append(expect, pos{file, ln})
 		} else {
-			ln := b.add(indent + callStmt(forms[level+1], fmt.Sprintf("f%d", level+1)))
+			call := callStmt(forms[level+1], fmt.Sprintf("f%d", level+1))
+			var ln int
+			switch wrapMode {
+			case 1: // the call is made from inside a finally block
+				b.add(indent + "try {")
+				b.add(indent + "\tw := 1")
+				b.add(indent + "} finally {")
+				ln = b.add(indent + "\t" + call)
+				b.add(indent + "}")
+			case 2: // from inside a catch block
+				b.add(indent + "try {")
+				b.add(indent + "\tthrow \"w\"")
+				b.add(indent + "} catch we {")
+				ln = b.add(indent + "\t" + call)
+				b.add(indent + "}")
+			case 3: // from inside a try body that has a finally block
+				b.add(indent + "try {")
+				ln = b.add(indent + "\t" + call)
+				b.add(indent + "} finally {")
+				b.add(indent + "\tw := 2")
+				b.add(indent + "}")
+			default:
+				ln = b.add(indent + call)
+			}
 			expect = append(expect, pos{file, ln})
 		}
 		if position == 0 {
@@ -268,6 +295,30 @@ func run16(c *fw.Ctx) {
 							}
 							check(c, build(d, fi, forms, layout, position, st, mb), d)
 						}
+					}
+				}
+			}
+		}
+	}
+	c.Family("wrapped-calls", "d <= 2 x failures x 3 call forms x calls placed in a finally block / a catch block / a try body with finally x 3 styles")
+	for wm := 1; wm <= 3; wm++ {
+		for d := 1; d <= 2; d++ {
+			for fi := range failures {
+				for form := 0; form < 3; form++ {
+					forms := make([]int, d+1)
+					for i := range forms {
+						forms[i] = form
+					}
+					forms[0] = 0 // main's own call stays a plain statement (return is not allowed in a finally at top level)
+					for style := 0; style < 3; style++ {
+						if !c.Next() {
+							continue
+						}
+						wrapMode = wm
+						p := build(d, fi, forms, 0, 1, style, false)
+						wrapMode = 0
+						p.desc += fmt.Sprintf(" wrap=%d", wm)
+						check(c, p, d)
 					}
 				}
 			}
